@@ -374,7 +374,9 @@ class PrimaiteGame:
                     new_application.run()
 
             if "network_interfaces" in node_cfg:
-                for nic_num, nic_cfg in node_cfg["network_interfaces"].items():
+                # interfaces are numbered in the order they are connected: follow the declared numbers, not the order in
+                # which the keys happen to be written
+                for nic_num, nic_cfg in sorted(node_cfg["network_interfaces"].items()):
                     new_node.connect_nic(NIC(ip_address=nic_cfg["ip_address"], subnet_mask=nic_cfg["subnet_mask"]))
 
             # temporarily set to 0 so all nodes are initially on
